@@ -163,52 +163,128 @@ func ruleDataMatrixEncoder(c *Ctx) {
 	c.Floor(R8, 6)
 	if fn := c.theFunc(R8, "datamatrix.EncodeWithColor"); fn != nil {
 		n := NewNormer(c.P)
-		n.MaxInline = 0
+		n.NoInline["datamatrix.(*dmCodeSize).DataCodewords"] = true
 		n.BindParams(fn, "content", "color")
 		bindCalls(n, c.P, fn, map[string]string{"datamatrix.encodeText": "data"}, nil)
-		var sphi *ssa.Phi
-		eachInstr(fn, func(b *ssa.BasicBlock, ins ssa.Instruction) {
-			if p, ok := ins.(*ssa.Phi); ok && namedTypeName(p.Type()) == "datamatrix.dmCodeSize" {
-				sphi = p
+		// the search loop: wherever (in EncodeWithColor or an unexported helper) a row of codeSizes is
+		// compared through DataCodewords
+		var loopSite *DeepSite
+		var row ssa.Value
+		c.P.deepEach(fn, 2, func(s DeepSite) {
+			call, ok := s.Ins.(*ssa.Call)
+			if !ok || calleeOf(call) == nil || c.P.FuncName(calleeOf(call)) != "datamatrix.(*dmCodeSize).DataCodewords" {
+				return
+			}
+			src := NewNormer(c.P).Norm(call.Common().Args[0]).asAtom()
+			if strings.HasPrefix(src, "global:datamatrix.codeSizes[") {
+				cp := s
+				loopSite, row = &cp, call.Common().Args[0]
 			}
 		})
-		if sphi == nil {
-			c.Undecided(R8, "datamatrix.EncodeWithColor/size", fn.Pos(), "size selection not found")
+		if loopSite == nil {
+			c.Check(R8, "datamatrix.EncodeWithColor/search", fn.Pos(), false, "a search over codeSizes comparing DataCodewords()", "not found")
 		} else {
-			var row ssa.Value
-			for _, e := range sphi.Edges {
-				if !isNilConst(e) {
-					row = e
+			F := loopSite.Fn
+			c.Fn(c.P.FuncName(F))
+			// ascending from index 0
+			asc := false
+			if ld, ok := row.(*ssa.UnOp); ok {
+				if ia, ok := ld.X.(*ssa.IndexAddr); ok {
+					for _, blk := range F.Blocks {
+						if idx, _, init, ok := loopIndex(blk); ok && idx == ia.Index && init == 0 {
+							asc = true
+						}
+					}
 				}
 			}
-			if row == nil {
-				c.Check(R8, "datamatrix.EncodeWithColor/size", sphi.Pos(), false, "a table row is selected", "only nil")
+			c.Check(R8, "datamatrix.EncodeWithColor/ascending", row.Pos(), asc, "rows visited in table order from index 0", fmt.Sprint(asc))
+			n.Bind[row] = "s"
+			body := loopSite.Ins.Block()
+			iff, ok := body.Instrs[len(body.Instrs)-1].(*ssa.If)
+			if !ok {
+				c.Undecided(R8, "datamatrix.EncodeWithColor/first-fit-guard", loopSite.Ins.Pos(), "capacity comparison does not end the loop body block")
 			} else {
-				src := NewNormer(c.P).Norm(row).asAtom()
-				c.Check(R8, "datamatrix.EncodeWithColor/table", row.Pos(), strings.HasPrefix(src, "global:datamatrix.codeSizes["), "element of codeSizes at the range index", src)
-				n.Bind[row] = "s"
-				for ei, e := range sphi.Edges {
-					pred := sphi.Block().Preds[ei]
-					cond := cAnd(n.ReachCond(fn, pred, pred), n.EdgeCond(pred, sphi.Block()))
-					if isNilConst(e) {
+				saved := n.Ctx
+				n.Ctx = loopSite.Path
+				guard := n.CondOf(iff.Cond)
+				n.Ctx = saved
+				want := cmpCond(token.GEQ, pAtom("call:datamatrix.(*dmCodeSize).DataCodewords(s)"), MustRef("len(data)"))
+				c.expectCondC(R8, "datamatrix.EncodeWithColor/first-fit-guard", iff.Cond.Pos(), guard, want)
+				// first match: the true edge leaves the loop with this row selected
+				exit := body.Succs[0]
+				var hdr *ssa.BasicBlock
+				for d := body; d != nil; d = d.Idom() {
+					if _, _, _, ok := loopIndex(d); ok {
+						hdr = d
+						break
+					}
+				}
+				leaves := hdr != nil && !reachableWithin(hdr, exit, body)
+				selected := false
+				for cur, steps := exit, 0; cur != nil && steps < 3; steps++ {
+					for _, ins := range cur.Instrs {
+						switch x := ins.(type) {
+						case *ssa.Phi:
+							for ei, e := range x.Edges {
+								if e == row && (cur.Preds[ei] == body || cur.Preds[ei] == exit) {
+									selected = true
+								}
+							}
+						case *ssa.Return:
+							if len(x.Results) > 0 && x.Results[0] == row {
+								selected = true
+							}
+						}
+					}
+					if len(cur.Succs) == 1 {
+						cur = cur.Succs[0]
+					} else {
+						cur = nil
+					}
+				}
+				c.Check(R8, "datamatrix.EncodeWithColor/first-match", iff.Pos(), leaves && selected, "loop left at the first fitting row, which becomes the size", fmt.Sprintf("leaves=%v selected=%v", leaves, selected))
+			}
+			// the size value in EncodeWithColor
+			var size ssa.Value
+			if F == fn {
+				eachInstr(fn, func(b *ssa.BasicBlock, ins ssa.Instruction) {
+					if p, ok := ins.(*ssa.Phi); ok && namedTypeName(p.Type()) == "datamatrix.dmCodeSize" {
+						size = p
+					}
+				})
+			} else if len(loopSite.Path) > 0 {
+				if v, ok := loopSite.Path[0].(ssa.Value); ok {
+					size = v
+				}
+				// the helper returns nil when nothing fits
+				nilRet := false
+				for _, ret := range returnsOf(F) {
+					if isNilConst(ret.Results[0]) {
+						nilRet = true
+					}
+				}
+				c.Check(R8, "datamatrix.EncodeWithColor/none-fits", F.Pos(), nilRet, "nil when no size fits", fmt.Sprint(nilRet))
+			}
+			if size == nil {
+				c.Undecided(R8, "datamatrix.EncodeWithColor/size", fn.Pos(), "selected size not found in EncodeWithColor")
+			} else {
+				n.Bind[size] = "size"
+				tooMuch := cFalse
+				for _, ret := range returnsOf(fn) {
+					if !isNilConst(ret.Results[0]) {
 						continue
 					}
-					// the break edge: from the loop body under the capacity guard
-					rc := cond
-					if len(pred.Preds) == 1 {
-						rc = cAnd(n.EdgeCond(pred.Preds[0], pred), cond)
-					}
-					want := cmpCond(token.GEQ, pAtom("call:datamatrix.(*dmCodeSize).DataCodewords(s)"), MustRef("len(data)"))
-					c.expectCondC(R8, "datamatrix.EncodeWithColor/first-fit-guard", e.Pos(), rc, want)
-					// first match: the edge leaves the loop immediately (pred is not in a cycle back to the header without passing the phi)
-					c.Check(R8, "datamatrix.EncodeWithColor/first-match", e.Pos(), !sphi.Block().Dominates(pred) && len(pred.Succs) == 1, "loop left at the first fitting row", "ok")
-				}
-				n.Bind[sphi] = "size"
-				for _, ret := range returnsOf(fn) {
-					if isNilConst(ret.Results[0]) && !sphi.Block().Succs[1].Dominates(ret.Block()) {
-						c.expectCondC(R8, "datamatrix.EncodeWithColor/too-much-iff", ret.Pos(), n.ReachCond(fn, sphi.Block(), ret.Block()), &Cond{Kind: CBool, Name: "Eq(nil,size)"})
+					rc := n.ReachCond(fn, nil, ret.Block())
+					cv := &condVars{bases: map[string]map[int64]bool{}, bools: map[string]bool{}}
+					collect(rc, cv)
+					if _, ok := cv.bools["Eq(nil,size)"]; ok {
+						pos, _, _ := CondRelation(rc, &Cond{Kind: CBool, Name: "Eq(nil,size)"})
+						if pos {
+							tooMuch = cOr(tooMuch, &Cond{Kind: CBool, Name: "Eq(nil,size)"})
+						}
 					}
 				}
+				c.expectCondC(R8, "datamatrix.EncodeWithColor/too-much-iff", fn.Pos(), tooMuch, &Cond{Kind: CBool, Name: "Eq(nil,size)"})
 				check := func(callee string, want []string) {
 					t := c.P.Func(callee)
 					calls := callsTo(fn, t)
@@ -378,6 +454,11 @@ func ruleDataMatrixEncoder(c *Ctx) {
 		"Corner4":   {{"nrow-1", "0"}, {"nrow-1", "ncol-1"}, {"0", "ncol-3"}, {"0", "ncol-2"}, {"0", "ncol-1"}, {"1", "ncol-3"}, {"1", "ncol-2"}, {"1", "ncol-1"}},
 	}
 	dims := map[string]string{"datamatrix.(*dmCodeSize).MatrixRows": "nrow", "datamatrix.(*dmCodeSize).MatrixColumns": "ncol"}
+	aliasDims := func(n *Normer) {
+		n.NoInline["datamatrix.(*dmCodeSize).MatrixRows"], n.NoInline["datamatrix.(*dmCodeSize).MatrixColumns"] = true, true
+		n.AtomAlias["call:datamatrix.(*dmCodeSize).MatrixRows(l.size)"] = "nrow"
+		n.AtomAlias["call:datamatrix.(*dmCodeSize).MatrixColumns(l.size)"] = "ncol"
+	}
 	setFn := c.P.Func("datamatrix.(*codeLayout).Set")
 	for _, name := range []string{"SetSimple", "Corner1", "Corner2", "Corner3", "Corner4"} {
 		fn := c.theFunc(R3, "datamatrix.(*codeLayout)."+name)
@@ -385,13 +466,13 @@ func ruleDataMatrixEncoder(c *Ctx) {
 			continue
 		}
 		n := NewNormer(c.P)
-		n.MaxInline = 0
 		if name == "SetSimple" {
 			n.BindParams(fn, "l", "row", "col", "value")
 		} else {
 			n.BindParams(fn, "l", "value")
 		}
 		bindCalls(n, c.P, fn, dims, nil)
+		aliasDims(n)
 		got := map[int64]string{}
 		for _, call := range callsTo(fn, setFn) {
 			a := call.Common().Args
@@ -415,9 +496,10 @@ func ruleDataMatrixEncoder(c *Ctx) {
 	}
 	if fn := c.theFunc(R3, "datamatrix.(*codeLayout).Set"); fn != nil && len(fn.Params) == 5 {
 		n := NewNormer(c.P)
-		n.MaxInline = 0
+		n.NoInline["datamatrix.(*dmCodeSize).MatrixRows"], n.NoInline["datamatrix.(*dmCodeSize).MatrixColumns"] = true, true
 		n.BindParams(fn, "l", "row", "col", "value", "bit")
 		bindCalls(n, c.P, fn, dims, nil)
+		aliasDims(n)
 		// final (row, col) are the arguments of the Occupied call
 		occ := callsTo(fn, c.P.Func("datamatrix.(*codeLayout).Occupied"))
 		if len(occ) != 1 {
@@ -468,9 +550,9 @@ func ruleDataMatrixEncoder(c *Ctx) {
 	}
 	if fn := c.theFunc(R3, "datamatrix.(*codeLayout).SetValues"); fn != nil {
 		n := NewNormer(c.P)
-		n.MaxInline = 0
 		n.BindParams(fn, "l", "data")
 		bindCalls(n, c.P, fn, dims, nil)
+		aliasDims(n)
 		// outer loop header: three phis with inits (0, 4, 0) = (idx, row, col)
 		var hdr *ssa.BasicBlock
 		var rowP, colP, idxP *ssa.Phi
